@@ -107,7 +107,7 @@ func ruleOneReader(c *Ctx) {
 						_ = ph
 					}
 					// `noBase` may be a plain bool value
-					if b, ok := cd.V.(*ssa.BinOp); ok && b.Op == token.EQL && !cd.Sense && strings.Contains(vkey(b), "LNil") {
+					if b, ok := cd.V.(*ssa.BinOp); ok && neHolds(b, cd) && strings.Contains(vkey(b), "LNil") {
 						explicit = true
 					}
 				}
@@ -279,7 +279,7 @@ func ruleQ(c *Ctx) {
 		}
 		excluded := false
 		for _, cd := range g.CondsAtInstr(cl) {
-			if b, ok := cd.V.(*ssa.BinOp); ok && b.Op == token.EQL && !cd.Sense && b.X == ssa.Value(verbParam) {
+			if b, ok := cd.V.(*ssa.BinOp); ok && neHolds(b, cd) && b.X == ssa.Value(verbParam) {
 				if k, ok := constInt(b.Y); ok && k == 'q' {
 					excluded = true
 				}
@@ -363,7 +363,15 @@ func ruleQuoteWidth(c *Ctx) {
 		if b, ok := in.(*ssa.BinOp); ok && b.Op == token.LSS {
 			if ph, ok := b.X.(*ssa.Phi); ok && isInduction(ph) {
 				if k, ok := constInt(b.Y); ok {
-					readerMax = 1 + k
+					// the iteration count: bound minus the constant the counter starts from (`i := 0; i < 2`
+					// and `i := 1; i < 3` both take two more digits)
+					start := int64(0)
+					for _, e := range ph.Edges {
+						if s0, isK := constInt(e); isK {
+							start = s0
+						}
+					}
+					readerMax = 1 + k - start
 				}
 			}
 		}
